@@ -34,6 +34,11 @@ def check(rep, ctx):
         rep.check(R_OV, False, construct=o["function"], stmt=o["stmt"],
                   message=f"`{o['stmt']}` requests {o['size']} bytes: more than the item holds whenever the other operand is larger -- the bytes of "
                           f"the next field, element or message are consumed and discarded", file=o["file"], line=o["line"])
+    for o in _scan.fixed_chunk_reads(ctx, ["kio.serial.readers", "kio.serial._parse", "kio.records.readers"]):
+        rep.check(R_OV, False, construct=o["function"], stmt=o["stmt"],
+                  message=f"`{o['stmt']}` in a loop takes {o['size']} bytes at a time whatever is still missing: unless the length is a multiple of "
+                          f"{o['size']} the last chunk swallows bytes of the next field, element or message (a chunked reader asks for "
+                          f"min(remaining, {o['size']}))", file=o["file"], line=o["line"])
     rep.count(R_OV, 1, instance="scan")
     R_R = rep.rule("C07-r-capability", "the caller's source is only read sequentially with explicit sizes", floor=19)
     for d, kind, skind, site, detail, n in eng["effects"]:
@@ -84,6 +89,16 @@ def check(rep, ctx):
                 continue
             for ok_, c_, stmt_, msg_, loc_ in length_domain_rows(W, pf, f"{key}.{f['name']}"):
                 rep.check(R_LD, ok_, construct=c_, stmt=stmt_, message=msg_, instance=f"{key}.{f['name']}|{stmt_[:30]}", **loc_)
+    from .. import scan as _scan2
+    R_SL = rep.rule("C07-w-slices", "no payload slice of the form x[-r:] with a remainder r that may be zero (for r == 0 that is the whole payload, "
+                    "written a second time after its full chunks)", floor=0,
+                    necessary_because="a value whose size is an exact multiple of the chunk size is followed by a copy of itself: the length "
+                                      "prefix says N, 2N bytes follow")
+    for o in _scan2.minus_zero_slices(ctx, ["kio.serial.writers", "kio.serial._serialize", "kio.records.writers"]):
+        rep.check(R_SL, False, construct=o["function"], stmt=o["stmt"],
+                  message=f"`{o['stmt']}`: {o['name']} is a remainder and may be 0, and x[-0:] is all of x -- the tail chunk repeats the whole value",
+                  file=o["file"], line=o["line"])
+    rep.count(R_SL, 1, instance="scan")
     W.finish(rep)
     rep.sample({"rule": "C07-w-capability", "effects": [e for e in eng["effects"] if e[0] == "w" and e[2] == "param"][:4]})
     rep.extra.update(depends_on="C01-a/b for byte-count agreement; C06-a for the decode side")
